@@ -325,4 +325,30 @@ theorem addNonvoterGo_none_of_absent (id addr : String) (c : Config) (h : id ∉
     simp only [this, if_false]
     rw [ih h.2]; rfl
 
+theorem addVoterGo_none_of_absent (id addr : String) (c : Config) (h : id ∉ ids c) :
+    addVoterGo id addr c = none := by
+  induction c with
+  | nil => rfl
+  | cons t rest ih =>
+    simp only [ids, List.map_cons, List.mem_cons, not_or] at h
+    unfold addVoterGo
+    have : ¬ t.id = id := fun e => h.1 e.symm
+    simp only [this, if_false]
+    rw [ih h.2]; rfl
+
+def roleOf (v : Bool) : Suffrage := if v then .voter else .nonvoter
+
+theorem applyChange_add_absent (cur : Config) (id addr : String) (v : Bool) (h : id ∉ ids cur) :
+    applyChange cur (addChange id addr v) = cur ++ [⟨id, addr, roleOf v⟩] := by
+  cases v
+  · simp [addChange, applyChange, addNonvoterGo_none_of_absent id addr cur h, roleOf]
+  · simp [addChange, applyChange, addVoterGo_none_of_absent id addr cur h, roleOf]
+
+/-- no server of `l` has the joining id or address: the loop leaves `cur` alone -/
+theorem joinLoop_nomatch (id addr : String) (v : Bool) (l cur : Config)
+    (h : ∀ s ∈ l, ¬ (s.id = id ∨ s.addr = addr)) : joinLoop id addr v l cur = .inr cur := by
+  have := joinLoop_skip_prefix id addr v l [] cur h
+  simpa [joinLoop] using this
+
+
 end RqModel.Membership
